@@ -119,6 +119,25 @@ func (ks *keyset) byName(n string) *key {
 	panic("no key " + n)
 }
 
+// pkgSetupError: a step of the key setup that is performed by the package under
+// test failed (as opposed to the gpg witness being unavailable): keys made by
+// gpg or NewEntity must be readable, serialisable and re-readable.
+type pkgSetupError struct {
+	step, msg string
+	data      []byte
+}
+
+func (e *pkgSetupError) Error() string { return e.step + ": " + e.msg }
+
+// reportSetupError turns a failed key setup into the right verdict.
+func reportSetupError(m *mon.M, err error) {
+	if pe, ok := err.(*pkgSetupError); ok {
+		m.Violation("key-setup-failed:"+pe.step, map[string]any{"error": pe.msg, "data": mon.FullHex(pe.data)})
+		return
+	}
+	m.Inconclusive("gpg witness / key setup unavailable: " + err.Error())
+}
+
 // newKeyset creates the gpg home, lets gpg generate its keys, lets the package
 // under test generate RSA entities, and makes every key known to both sides.
 func newKeyset() (*keyset, error) {
@@ -163,12 +182,12 @@ func newKeyset() (*keyset, error) {
 		e, err := openpgp.NewEntity(s.name, "", strings.ToLower(s.name)+"@example.com", s.cfg)
 		if err != nil {
 			g.close()
-			return nil, fmt.Errorf("NewEntity %s: %v", s.name, err)
+			return nil, &pkgSetupError{"NewEntity", fmt.Sprintf("%s: %v", s.name, err), nil}
 		}
 		var one bytes.Buffer
 		if err := e.SerializePrivate(&one, s.cfg); err != nil {
 			g.close()
-			return nil, fmt.Errorf("SerializePrivate %s: %v", s.name, err)
+			return nil, &pkgSetupError{"SerializePrivate", fmt.Sprintf("%s: %v", s.name, err), nil}
 		}
 		goSec.Write(one.Bytes())
 		k := &key{name: s.name, origin: "go", ent: e, signAlgo: "RSA", encAlgo: "RSA", exported: one.Bytes()}
@@ -192,7 +211,7 @@ func newKeyset() (*keyset, error) {
 	all, err := openpgp.ReadKeyRing(bytes.NewReader(r.out))
 	if err != nil {
 		g.close()
-		return nil, fmt.Errorf("ReadKeyRing(secret export): %v", err)
+		return nil, &pkgSetupError{"ReadKeyRing-of-gpg-secret-export", err.Error(), r.out}
 	}
 	meta := map[string][3]string{"GRSA": {"RSA", "RSA", "0"}, "GDSA": {"DSA", "ELG", "256"}, "GDS1": {"DSA", "ELG", "160"}, "GECC": {"ECDSA", "RSA", "256"}, "GEC3": {"ECDSA", "RSA", "384"}, "GEC5": {"ECDSA", "RSA", "512"}}
 	for _, e := range all {
@@ -206,7 +225,7 @@ func newKeyset() (*keyset, error) {
 	}
 	if len(ks.keys) != 9 {
 		g.close()
-		return nil, fmt.Errorf("expected 9 keys, have %d (ReadKeyRing returned %d entities)", len(ks.keys), len(all))
+		return nil, &pkgSetupError{"ReadKeyRing-of-gpg-secret-export", fmt.Sprintf("expected 9 keys, have %d (ReadKeyRing returned %d entities)", len(ks.keys), len(all)), r.out}
 	}
 	for _, k := range ks.keys {
 		ks.ring = append(ks.ring, k.ent)
@@ -214,12 +233,12 @@ func newKeyset() (*keyset, error) {
 		var pb bytes.Buffer
 		if err := k.ent.Serialize(&pb); err != nil {
 			g.close()
-			return nil, fmt.Errorf("Serialize %s: %v", k.name, err)
+			return nil, &pkgSetupError{"Entity.Serialize:" + k.signAlgo, fmt.Sprintf("%s: %v", k.name, err), nil}
 		}
 		pe, err := openpgp.ReadKeyRing(bytes.NewReader(pb.Bytes()))
 		if err != nil || len(pe) != 1 {
 			g.close()
-			return nil, fmt.Errorf("ReadKeyRing(Serialize(%s)): %v", k.name, err)
+			return nil, &pkgSetupError{"ReadKeyRing-of-Entity.Serialize:" + k.signAlgo, fmt.Sprintf("%s: %v (%d entities)", k.name, err, len(pe)), append([]byte(nil), pb.Bytes()...)}
 		}
 		ks.pub = append(ks.pub, pe[0])
 		k.pubSnap = append([]byte(nil), pb.Bytes()...)
